@@ -16,7 +16,7 @@ PROPERTY = "C13"
 LEVEL = "exploration"
 RULE = ("case = action sequence over {inbound connection of peer k (also a second one), CER ok / unknown peer / no "
         "common application, CEA ok / rejected, DPR, peer gone, socket error, clock advance past the CE timeout, "
-        "advance past idle+DWA timeout, node-initiated close, application request} on 3 peers (one dialled by the "
+        "advance past idle+DWA timeout, advance past idle only (connections left awaiting DWA), DWA, node-initiated close, application request} on 3 peers (one dialled by the "
         "node) and 2 applications; exhaustive to depth 3 (thorough 4) from 3 start situations, random walks to depth "
         "12; every connection carries at most one CER. Invariants evaluated after every step. Non-trivial = at least "
         "one connection was removed or became ready during the history; distinct by hash.")
@@ -26,7 +26,7 @@ ASSUMPTIONS = ["a connection belongs to a peer when the node dialled that peer, 
                "may have either value"]
 TIMEOUT = {"quick": 900, "thorough": 3600}
 ACTIONS = ["in1", "in2", "in3", "cer_ok", "cer_unknown", "cer_nocommon", "cea_ok", "cea_rej", "dpr", "gone", "reset",
-           "adv_ce", "adv_idle", "node_close", "req"]
+           "adv_ce", "adv_idle", "adv_to_dwr", "dwa", "node_close", "req"]
 NAMES = ["peer1.verif.example", "peer2.verif.example", "peer3.verif.example"]
 
 
@@ -151,6 +151,17 @@ class Case:
             h.advance(21)
             h.settle()
             h.advance(3)
+        elif a == "adv_to_dwr":
+            h.advance(21)          # past the idle timeout only: ready connections are left awaiting their DWA
+        elif a == "dwa":
+            g = self.pick(lambda g: g.owner is not None)
+            if g is None:
+                return False
+            g.sp.drain()
+            d = [f for f in g.sp.frames if f.h.code == 280 and f.is_request]
+            if not d:
+                return False
+            g.sp.send(M.dwa(g.owner, self.REALM, hbh=d[-1].h.hbh, e2e=d[-1].h.e2e))
         elif a == "node_close":
             g = self.pick(lambda g: True)
             if g is None:
